@@ -119,6 +119,13 @@ impl<'r> TemplateVisitor for V<'r> {
                     }
                 } else if r.outer_passes > meta.n || iters != r.outer_passes {
                     rep.violation(&format!("{tname}:wrong-number-of-iterations"), json!({"case": case(), "requested_at_most": meta.n, "passes_observed": r.outer_passes, "iterations_reported": iters}));
+                } else if r.outer_passes < meta.n {
+                    // `iterations(n) & !OptimumReached(1e-3)`: fewer passes only because the best value is within 1e-3 of the known optimum
+                    let best = state.best_objective_value().map(|o| o.value());
+                    let opt = problem.known_optimum().value();
+                    if !best.map(|b| b <= opt + 1e-3).unwrap_or(false) {
+                        rep.violation(&format!("{tname}:stopped-early-without-having-reached-the-optimum"), json!({"case": case(), "requested": meta.n, "passes_observed": r.outer_passes, "best": best, "known_optimum": opt, "epsilon": 1e-3}));
+                    }
                 }
                 if h != Some(1) {
                     rep.violation(&format!("{tname}:final-stack-height"), json!({"case": case(), "final_height": h}));
